@@ -303,6 +303,20 @@ CLAIMS["C14"]["text"] += (" Translator tie (harness/py2coq_arith.py): Fundamenta
                           "other shape).")
 
 
+LIFT_NOTE = (" Whole simulations (theories/SimMarketLift.v, market_invariant_of_every_run): a market of a run only ever changes through the Level-M operations (accepted order, "
+             "accepted cancel, matching round, clock step, matching switched on / off) or a fundamental-price shock, and the run's records that name it are its Level-M records; so "
+             "EVERY predicate on (market, records so far) that the valid Level-M operations preserve holds for every market of every run - for every configuration with distinct "
+             "market ids, every tape, every agent behaviour and every set of events, given that accepted orders have positive volume and time-to-live (Order.__init__ enforces it). ")
+CLAIMS["C04"]["text"] += LIFT_NOTE + ("Instance C04_nothing_lost_in_every_run: for every market of every run and every order accepted on it, accepted volume = its fills + what "
+                                      "still rests + the volume of its first cancellation / expiry record; a resting order has had no terminal event.")
+CLAIMS["C01"]["text"] += LIFT_NOTE + ("Instance C01_fills_honour_accepted_limits_in_every_run (theories/SimFillLimits.v): every fill among a market's records is preceded by the "
+                                      "acceptance records of its buy and its sell order, names their agents, and its price is within the limits those orders were accepted with.")
+CLAIMS["C08"]["text"] += LIFT_NOTE + ("Instance C08_storage_invariant_in_every_run: the storage invariant of the price series and the lifetime invariant of the books hold for every "
+                                      "market of every run, so the per-operation rules apply at every accepted order, cancel, fill and clock step of every simulation.")
+for _p in ("C01", "C04", "C08"):
+    CLAIMS[_p]["technique"] += " + generic lifting of Level-M invariants to every market of every simulation (SimMarketLift.v)"
+
+
 def _index_tie():
     import translated
     return translated.index_tie()
